@@ -179,7 +179,9 @@ def executor(ck):
         else:
             sws = [sw for sw in T.switches_on_expr(sc, lambda e: e[0] == "discr")]
             for sw in sws:
-                if all(T.reachable_only_via(sc, e.bb, T.discr_edges(sc, sw, 1)) for e in eff) and eff:
+                # (`Some` of an Option, or the "alive" variant of a private enum: whichever variant carries the table)
+                vals = {1} | {v for v, _ in sc.blocks[sw]["term"]["targets"]}
+                if eff and any(T.discr_edges(sc, sw, v) and all(T.reachable_only_via(sc, e.bb, T.discr_edges(sc, sw, v)) for e in eff) for v in vals):
                     ok = True
         ck.verdict(ok, "4", "T4-guarded-by", sc, "effects-only-if-table-present", "schedule() spawns/enqueues only when the task table still exists (ExecutorDestroyed otherwise)", "schedule() has effects although the executor was destroyed", site=sc.where())
         vk = [cs for cs in sc.calls() if cs.name == "vacant_key" and not sc.is_cleanup(cs.bb)]
@@ -191,6 +193,11 @@ def executor(ck):
             gf0 = ck.guardflow(sc)
             # the table stays borrowed from vacant_key to insert: nothing else can take the key in between
             held = all(any("Slab" in f.short_ty(p) for l, k, p in gf0.live_payloads(bb_)) for bb_ in (vk[0].bb, ins[0].bb))
+            if not held:
+                # the table wrapped in a private type: the same guard is live at both calls and both receivers are
+                # borrowed out of it
+                l1 = {l for l, k, p in gf0.live_payloads(vk[0].bb)} & {l for l, k, p in gf0.live_payloads(ins[0].bb)}
+                held = any(T.derives_from_local(sc, vk[0].args[0], l) and T.derives_from_local(sc, ins[0].args[0], l) for l in l1)
             ok = held
         ck.verdict(ok, "3", "T6-provenance", sc, "task-index=vacant_key=insert-key", "the index stored in the task's metadata (where its result will be written) is the key the table hands out for the inserted entry: vacant_key() precedes the single insert with the table borrowed throughout", "the index a task stores its result under is not guaranteed to be the key of the entry inserted for it", site=sc.where())
         gf = ck.guardflow(sc)
